@@ -28,7 +28,8 @@ EXPLANATION = (
     'truncates the PV at exactly the number of moves it replayed before it appends tablebase moves generated from that position.'
     ' (6) the MultiPV count that indexes / offsets the root list or is handed on with it is min(.., rootMoves.size()) at every use and the list is not resized after the clamp.'
     ' Added later; (7) the text printed for a move (bestmove, ponder, pv, currmove) is its UCI form: the suffix SearchListener::moveToString writes for each promotion piece, obtained by interpreting the printer for every promotion code, is the letter uciStringToMove reads back as that piece, and the listener formats moves only through the checked printers.'
-    ' Added later; (8) MoveList::filter decides membership in the searchmoves list by move equality or by every field Move::operator== compares.')
+    ' Added later; (8) MoveList::filter decides membership in the searchmoves list by move equality or by every field Move::operator== compares.'
+    ' Added later; (9) in the multi-PV report the entry just searched is printed under a not-yet-printed flag and every other entry where its index differs from it.')
 UNDECIDED = ('that the chosen move is good; playability of PVs beyond the validated-prefix rule; MultiPV distinctness by value; score '
              'ranges (see C04 for the mate-distance encoding).')
 ASSUMPTIONS = ['MoveGen::pseudoLegalMoves + removeIllegal produce exactly the legal moves (property C01)',
@@ -56,6 +57,7 @@ def run(fb, rep, tier):
     C17.uci_promotion_letters(fb, rep, 'C03.7', ('SearchListener::moveToString',))
     c7_printer_single(fb, rep)
     c8_filter_identity(fb, rep)
+    c9_multipv_lines_distinct(fb, rep)
 
 
 # ----------------------------------------------------------------------------- .1
@@ -608,3 +610,55 @@ def c8_filter_identity(fb, rep):
     ok = uses_eq or identity <= read
     rep.ob(clause, 'K10 identity agreement', 'MoveList::filter decides membership in the searchmoves list by the full move identity', ok, flt.where,
            'Move::operator== compares %s; filter uses move equality: %s; fields read through accessors: %s' % (sorted(identity), uses_eq, sorted(read)), flt.sname)
+
+
+def c9_multipv_lines_distinct(fb, rep):
+    """K4: one multi-PV report prints maxPV lines taken from the sorted root list, with the line of the move that has just
+    been searched (index mi) inserted where its new score puts it.  The lines start with pairwise distinct moves only if
+    every entry is printed at most once: the entry mi under a "not yet printed" flag that is raised with the print, every
+    other print under the knowledge that its index is not mi."""
+    clause = 'C03.9'
+    cands = [f for f in fb.find('Search::notifyPV') if f.has_cfg and len(f.d.get('params', [])) == 3]
+    if rep.need(clause, cands, 'Search::notifyPV(list, mi, maxPV)') is None:
+        return
+    f = cands[0]
+    mi = f.d['params'][1].get('id')
+    lst = f.d['params'][0].get('id')
+    prints = []
+    for b, i, e in f.events():
+        if e.get('k') == 'call' and cname(e) == 'Search::notifyPV' and len(e.get('args', [])) == 2:
+            a0 = e['args'][0]
+            idx = None
+            for n in walk(a0):
+                if n.get('k') == 'call' and n.get('op') == '[]' and (_strip(n.get('recv')) or {}).get('id') == lst and n.get('args'):
+                    idx = _strip(n['args'][0])
+                if n.get('k') == 'idx' and (_strip(n.get('b')) or {}).get('id') == lst:
+                    idx = _strip(n.get('i'))
+            prints.append((b, i, e, idx))
+    rep.floor(clause, 'line prints in the multi-PV report', len(prints), 3)
+    # the "already printed" flag: a bool local assigned true right after a print of entry mi
+    flags = set()
+    for b, i, e in f.events():
+        if e.get('k') == 'asg' and (_strip(e.get('r')) or {}).get('cv') == 1 and isinstance(_strip(e.get('l')), dict) and _strip(e['l']).get('k') == 'var':
+            flags.add(_strip(e['l'])['id'])
+    k = 0
+    for b, i, e, idx in prints:
+        k += 1
+        gs = G.guard_trees(f, set(f.blocks), b)
+        if isinstance(idx, dict) and idx.get('id') == mi:
+            guarded = any((not side) and isinstance(_strip(c), dict) and _strip(c).get('k') == 'var' and _strip(c).get('id') in flags for c, side in gs)
+            raised = f.path_avoiding((b, i), R.at_exit, lambda x: x is not None and x.get('k') == 'asg' and (_strip(x.get('l')) or {}).get('id') in flags and (_strip(x.get('r')) or {}).get('cv') == 1) is None or \
+                any(ev.get('k') == 'asg' and (_strip(ev.get('l')) or {}).get('id') in flags for ev in f.blocks[b]['ev'])
+            rep.ob(clause, 'K4 guard', 'multi-PV report: print #%d of the entry just searched happens only while it has not been printed, and marks it printed' % k, guarded and raised,
+                   R.site(f, e), 'guards %s' % [('' if s_ else '!') + show(c, 50) for c, s_ in gs][-3:], f.sname)
+        else:
+            ne = False
+            for c, side in gs:
+                c = _strip(c)
+                if isinstance(c, dict) and c.get('k') == 'bin' and c.get('op') in ('==', '!='):
+                    ids = {(_strip(c.get('l')) or {}).get('id'), (_strip(c.get('r')) or {}).get('id')}
+                    if mi in ids and isinstance(idx, dict) and idx.get('id') in ids:
+                        if (c['op'] == '==' and not side) or (c['op'] == '!=' and side):
+                            ne = True
+            rep.ob(clause, 'K4 guard', 'multi-PV report: print #%d of another entry happens only where its index is known to differ from the entry just searched' % k, ne,
+                   R.site(f, e), 'guards %s' % [('' if s_ else '!') + show(c, 50) for c, s_ in gs][-3:], f.sname)
